@@ -440,16 +440,30 @@ def check(ctx):
     dedup_clauses(ctx)
     unpivot_clauses(ctx)
     from rules import independence
-    independence.r28_functions(ctx, [('dataflows.processors.filter_rows:process_resource', {}),
-                                     ('dataflows.processors.unpivot:unpivot_rows', {}),
-                                     ('dataflows.processors.deduplicate:deduper', {'__kinds__': ('SEEN',)}),
-                                     ('dataflows.processors.deduplicate:deduplicate.func', {}),
-                                     ('dataflows.processors.filter_rows:filter_rows.func', {}),
-                                     ('dataflows.processors.unpivot:unpivot.func',
+    steps = [returned_closure(ctx, ctx.repo.func('dataflows.processors.%s:%s' % (n, n))) for n in ('filter_rows', 'deduplicate', 'unpivot')]
+    if any(s_ is None for s_ in steps):
+        raise AnalysisError('package step of filter_rows / deduplicate / unpivot not found')
+
+    def wrapper_of(step):
+        out = []
+        for c in own_nodes(step.node):
+            if isinstance(c, ast.Call):
+                h = callee(ctx, c, step)
+                if h is not None and h.is_generator:
+                    out.append(h)
+        if len(out) != 1:
+            raise AnalysisError('%s: expected one row-wrapper call, found %d' % (step.qualname, len(out)))
+        return out[0]
+    f_step, d_step, u_step = steps
+    independence.r28_functions(ctx, [(wrapper_of(f_step), {}),
+                                     (wrapper_of(u_step), {}),
+                                     (wrapper_of(d_step), {'__kinds__': ('SEEN',)}),
+                                     (d_step, {}),
+                                     (f_step, {}),
+                                     (u_step,
                                       {'config': 'per-resource configuration built in the package phase', 'fields': 'schema field list being rebuilt',
                                        'fields_to_pivot': 'fields matched by the current specification entry', 'f': 'comprehension variable'})])
-    coupling.r11_function_steps(ctx, [ctx.repo.func('dataflows.processors.unpivot:unpivot.func')])
-    steps = [ctx.repo.func('dataflows.processors.%s:%s.func' % (n, n)) for n in ('filter_rows', 'deduplicate', 'unpivot')]
+    coupling.r11_function_steps(ctx, [u_step])
     stream.r6_identity(ctx, steps)
     stream.r6_count_agreement(ctx, steps)
     run.not_decided += ['equals / not_equals semantics on values (==), idempotence of deduplicate as a behaviour',
